@@ -43,6 +43,8 @@ def cases(tier):
         out.append(dict(pcrc=2, bcrc=2, ext='repl', flags=fl, origin='local', kfrag=3))
     out.append(dict(pcrc=2, bcrc=2, ext='both', flags='none', origin='forwarded', kfrag=3))
     out.append(dict(pcrc=0, bcrc=1, ext='none', flags='none', origin='forwarded', kfrag=3))
+    out.append(dict(pcrc=2, bcrc=0, ext='none', flags='none', origin='forwarded', kfrag=3, ts0=1))
+    out.append(dict(pcrc=0, bcrc=2, ext='repl', flags='none', origin='forwarded', kfrag=3, ts0=2))
     # security policy on: a BIB (COSE_Mac0, ideal MAC) over the payload is applied by the transmit chain
     out.append(dict(pcrc=2, bcrc=2, ext='none', flags='none', origin='local', kfrag=3, sec='bib'))
     out.append(dict(pcrc=1, bcrc=0, ext='repl', flags='none', origin='local', kfrag=3, sec='bib'))
@@ -75,10 +77,10 @@ def build_bundle(c, case, P, payload):
     from bp.encoding import (Bundle, PrimaryBlock, CanonicalBlock, Timestamp, HopCountBlock, BundleAgeBlock)
     from bp.util import BundleContainer
     flags = {'none': 0, 'nofrag': PrimaryBlock.Flag.NO_FRAGMENT, 'isfrag': PrimaryBlock.Flag.IS_FRAGMENT}[case['flags']]
-    t = c.sym_int('dtntime', 2 ** 32, 2 ** 64 - 1)
+    t = 0 if case.get('ts0') else c.sym_int('dtntime', 2 ** 32, 2 ** 64 - 1)
     s = c.sym_int('seqno', 0, 23)
     kw = dict(bundle_flags=flags, destination='dtn://dest/svc', source='dtn://src/app', report_to='dtn:none',
-              create_ts=Timestamp(dtntime=t, seqno=s), lifetime=3600000, crc_type=case['pcrc'])
+              create_ts=Timestamp(dtntime=t, seqno=s), lifetime=0 if case.get('ts0') == 2 else 3600000, crc_type=case['pcrc'])
     if case['flags'] == 'isfrag':
         kw['fragment_offset'] = c.sym_int('foff', 0, 2 ** 32)
         kw['total_app_data_len'] = c.sym_int('ftotal', 0, 2 ** 64 - 1)
@@ -123,6 +125,12 @@ def harness(case, tier):
         ctr.bundle.update_all_crc()
         wire = rt.b_bytes(ctr.bundle)
         ctr = BundleContainer(Bundle(wire))
+        # the bundle arrives from elsewhere: mark it as the receive path does
+        ctr.record_action('receive')
+        if case.get('ts0'):
+            # a clock-less source (creation time 0; also lifetime 0): origination defaults must not be applied, so
+            # the reference is the received encoding itself
+            ref = wire
     err = w.send(ctr)
     w.run_idle(40)
     esc = w.escaped()
